@@ -304,24 +304,22 @@ theorem RejInv_step (s s' : Sys) (l : Label) (h : RejInv s) (hi : IdsInv s)
           · rename_i w hf
             obtain ⟨hw, hq⟩ := find_waiter hf
             have hwo : w.oid = oid := by simpa using hq
-            cases hs
-            have hbase : RejInv { s with waiters := if w.granted = true then grantFirst (s.waiters.erase w) else s.waiters.erase w } :=
-              RejInv_of_eq (RejInv_erase s w h) rfl rfl (by simp only; split <;> simp [wkeys_grantFirst]) rfl rfl
-            refine RejInv_complete _ _ _ _ hbase (fun _ => ?_)
-            have := erase_oid_notin s hi hw
-            rw [hwo] at this
-            refine ⟨this.1, ?_⟩
-            have hk : keysOf { s with waiters := if w.granted = true then grantFirst (s.waiters.erase w) else s.waiters.erase w }
-                = keysOf { s with waiters := s.waiters.erase w } := by
-              simp only [keysOf]; split <;> simp [wkeys_grantFirst]
-            rw [hk]; exact this.2
+            split at hs
+            · cases hs
+            · cases hs
+              refine RejInv_complete _ _ _ _ (RejInv_erase s w h) (fun _ => ?_)
+              have := erase_oid_notin s hi hw
+              rw [hwo] at this
+              exact this
           · cases hs
         · rename_i hc
-          cases hs
-          refine RejInv_complete _ _ _ _ h (fun hr => ?_)
-          rcases hr with hr | ⟨_, hk⟩
-          · cases hr
-          · have := h.askKind oid hc; rw [this] at hk; cases hk
+          split at hs
+          · cases hs
+          · cases hs
+            refine RejInv_complete _ _ _ _ h (fun hr => ?_)
+            rcases hr with hr | ⟨_, hk⟩
+            · cases hr
+            · have := h.askKind oid hc; rw [this] at hk; cases hk
         · cases hs
     · cases hs
   | recvReply oid =>
